@@ -545,6 +545,90 @@ def rule_distinct_count_rule(ctx):
     decide(ctx, "O9.7b", "DistinctCount rule", qualname, cell, min_cells=10)
 
 
+DISTINCT_COUNT_RULES = [
+    # (rule text, column where the field name ends, accepted?)
+    ("b >= 2", 1, True), ("b<3", 1, True), ("b == 1", 1, True), ("b >= 2 and b <= 5", 1, False),
+    # the test evaluation (count = 0) never reaches the undeclared name: "a rule naming only declared fields"
+    ("b < 1 or no_such_field > 3", 1, False), ("b > 0 and no_such_field < 5", 1, False), ("b >= 0 or zz", 1, False),
+    ("b if True else nothing", 1, False),
+    # names of builtins are no fields either; called, they can end the process (SystemExit is no Exception)
+    ("b < exit()", 1, False), ("b >= 0 or quit()", 1, False), ("b < len(nothing)", 1, False),
+]
+
+
+def rule_distinct_count_names(ctx, rule_id="O9.7c"):
+    """DistinctCount: "a rule naming only declared fields" - apart from the counted field the expression refers to no name
+    at all (no other field, no undeclared name hidden behind a short-circuit, no builtin).  The constructor is interpreted
+    on concrete rule texts; eval / compile are the real ones on a name space with stand-ins for exit() / quit()."""
+    import tokenize as _tokenize
+
+    model = ctx.model
+    ctx.res.minimum(rule_id, 1)
+    qualname = "cutplace.checks.DistinctCountCheck.__init__"
+
+    class _ProcessExit(BaseException):
+        pass
+
+    def _exit(*args):
+        raise _ProcessExit()
+
+    def run_native(interp_, function, args):
+        try:
+            return function(*args)
+        except _ProcessExit:
+            interp_.raise_("builtins.SystemExit")
+        except Exception as error:  # what the real call raises is what the analysed code has to deal with
+            interp_.raise_("builtins." + type(error).__name__, str(error))
+
+    def environment(globs):
+        env = dict(globs) if isinstance(globs, dict) else {}
+        if "__builtins__" not in env:
+            env["__builtins__"] = {"exit": _exit, "quit": _exit, "len": len, "abs": abs, "True": True, "False": False}
+        return env
+
+    def eval_hook(interp_, args, kwargs):
+        expression = args[0]
+        globs = args[1] if len(args) > 1 else {}
+        locs = args[2] if len(args) > 2 else {}
+        if not isinstance(expression, (str, type(compile("0", "<x>", "eval")))) or not isinstance(locs, dict):
+            raise Undecided("eval%r" % (args,))
+        return run_native(interp_, eval, [expression, environment(globs), dict(locs)])
+
+    def compile_hook(interp_, args, kwargs):
+        if not all(isinstance(argument, str) for argument in args[:3]):
+            raise Undecided("compile%r" % (args,))
+        return run_native(interp_, compile, list(args[:3]))
+
+    def getattr_hook(interp_, args, kwargs):
+        value, name = args
+        if isinstance(value, type(compile("0", "<x>", "eval"))) and name.startswith("co_"):
+            return getattr(value, name)
+        raise Undecided("attribute %s of %r" % (name, value))
+
+    def cell(ch):
+        rule, name_end, acceptable = ch.choose("rule", DISTINCT_COUNT_RULES)
+        import io as _io
+
+        tokens = [tuple(token) for token in _tokenize.generate_tokens(_io.StringIO(rule).readline)]
+        interp = Interp(model, ch, stubs={"cutplace._tools.generated_tokens": stub(lambda i, a, k: AbsIter(
+            lambda index: tokens[index] if index < len(tokens) else AbsIter.STOP, "tokens"))},
+            externals={"builtins.eval": eval_hook, "builtins.compile": compile_hook, "getattr": getattr_hook})
+        world = World(model, interp, ch)
+        check = Obj(model.cls("cutplace.checks.DistinctCountCheck"), {})
+        try:
+            interp.call_function(model.func(qualname), [check, "distinct", rule, ["a", "b"], world.location()], {}, None)
+            outcome = "accepted"
+        except AbsRaise as raised:
+            outcome = "raise " + exc_name(raised.value)
+        if rule == "b >= 2 and b <= 5":
+            # the counted field named twice: refusing it is what "field <comparison> n" suggests, accepting it would need b
+            # to be known to the evaluation; today it is an InterfaceError (unknown name b) - either way no other exception
+            return (rule, "accepted or InterfaceError" if outcome in ("accepted", "raise InterfaceError") else outcome, "accepted or InterfaceError")
+        return (rule, outcome, "accepted" if acceptable else "raise InterfaceError")
+
+    decide(ctx, rule_id, "DistinctCount rule: names besides the counted field", qualname, cell, min_cells=len(DISTINCT_COUNT_RULES))
+
+
 # ------------------------------------------------------------------------------------------------- O9.5
 def rule_located_errors(ctx):
     """Every raise of InterfaceError reachable from Cid.read has a location or is wrapped by the field-construction handler."""
@@ -653,4 +737,4 @@ def rule_overlapping_items(ctx):
     items_overlap_table(ctx, "O9.10")
 
 
-RULES = [rule_row_dispatch, rule_row_order, rule_field_names, rule_field_row, rule_check_row, rule_is_unique_rule, rule_distinct_count_rule, rule_located_errors, rule_known_types, rule_overlapping_items, rule_module_state]
+RULES = [rule_row_dispatch, rule_row_order, rule_field_names, rule_field_row, rule_check_row, rule_is_unique_rule, rule_distinct_count_rule, rule_distinct_count_names, rule_located_errors, rule_known_types, rule_overlapping_items, rule_module_state]
